@@ -34,7 +34,7 @@ def load(path: str | os.PathLike, format: str | None = None) -> _core.Model:
     # A bare file name has an empty dirname. Use the current directory instead so that
     # the base directory is never empty (an empty base directory disables the
     # containment checks of external tensors).
-    base_dir = os.path.dirname(path) or os.curdir
+    base_dir = os.path.abspath(os.path.dirname(path) or os.curdir)
     # Set the base directory for external data to the directory of the ONNX file
     # so that relative paths are resolved correctly.
     _external_data.set_base_dir(model.graph, base_dir)
